@@ -285,7 +285,7 @@ class DictGen:
         r = self.rng
         if self.cfg.get("tmpl_in_container") and r.random() < 0.3:
             return r.choice(TEMPLATES)
-        return r.choice([0, 1, 2, "a", "b", None])
+        return r.choice([0, 1, 2, "a", "b", None, True, False])
 
     def _fix(self, o):
         """Repair generator restrictions: acyclic templates; closed unless 'dangling'."""
@@ -339,6 +339,8 @@ class DictGen:
         # nested failure: strip something
         self._strip_one_template(o)
 
+    DOM_FULL = [0, 1, 2, True, False, None, "", "a", "b"]  # the only value the key DOM ever holds
+
     MUTATIONS = [
         "repeat", "repeat", "change", "change", "change", "delete", "add", "never", "permute",
         "sibling", "template", "fresh", "section_replace",
@@ -365,6 +367,11 @@ class DictGen:
             set_path(o, p, new)
         elif m == "delete" and leaves:
             del_path(o, r.choice(leaves))
+        elif m == "add" and r.random() < 0.15:
+            if "DOM" in o:
+                del o["DOM"]
+            else:
+                o["DOM"] = list(self.DOM_FULL)
         elif m == "add":
             cand = [k for k in self.keys if not present(k, o)]
             if cand:
@@ -406,6 +413,8 @@ class DictGen:
                 o[k] = {r.choice(["X", "Y"]): self.scalar()}
         elif m == "fresh":
             o = self.fresh()
+            if r.random() < 0.3:
+                o["DOM"] = list(self.DOM_FULL)
         else:
             m = "repeat"
         self._fix(o)
